@@ -75,9 +75,9 @@ CONSTRAINT Constraint
 def _optimizer_space(tier):
     """(maxlen, start, alpha) triples explored exhaustively by TLC."""
     if tier == 'quick':
-        return [(2, 1, 1), (3, 3, 2), (2, 2, 3), (2, 4, 4), (4, 3, 5)]
+        return [(2, 1, 1), (3, 3, 2), (2, 2, 3), (2, 4, 4), (4, 3, 5), (2, 12, 13)]
     return [(3, 1, 1), (4, 3, 2), (3, 2, 3), (3, 2, 1), (3, 4, 4), (5, 3, 5),
-            (3, 6, 1), (3, 7, 7), (3, 8, 8), (3, 9, 10), (3, 1, 9)]
+            (3, 6, 1), (3, 7, 7), (3, 8, 8), (3, 9, 10), (3, 1, 9), (3, 12, 13), (3, 11, 12), (3, 5, 11)]
 
 
 def _start_sig(start_id):
@@ -1803,9 +1803,9 @@ def _schema_space(tier):
         return [tuple(int(x) for x in part.split(',')) for part in os.environ['VERIF_SCHEMA_SPACE'].split(';')]
     if tier == 'quick':
         return [(2, 1, 1), (2, 2, 1), (2, 4, 4), (2, 5, 6), (2, 2, 3), (2, 6, 1), (2, 7, 7), (2, 8, 8), (2, 9, 10), (2, 1, 9),
-                (2, 10, 3), (2, 5, 11), (2, 11, 12)]
+                (2, 10, 3), (2, 5, 11), (2, 11, 12), (2, 12, 13)]
     return [(3, 1, 1), (3, 2, 1), (3, 4, 4), (3, 5, 6), (3, 2, 3), (4, 3, 2), (4, 3, 5), (3, 6, 1), (3, 7, 7), (3, 8, 8), (3, 9, 10), (3, 1, 9),
-            (3, 10, 3), (3, 5, 11), (3, 10, 11), (3, 11, 12)]
+            (3, 10, 3), (3, 5, 11), (3, 10, 11), (3, 11, 12), (3, 12, 13)]
 
 
 def _schema_check(prop, tier):
